@@ -69,6 +69,7 @@ type scen struct {
 	split    bool     // scenario of the split family (ext_recovery_test.go): not part of the deviation levels
 	prim     int      // split: primary index of the first height
 	deep     bool     // split: explored by the split family in the thorough tier only
+	xview    bool     // scenario of the xview family (ext_xview_test.go; split is set as well)
 }
 
 // Replay artefact / violation detail.
@@ -84,6 +85,47 @@ type caseRec struct {
 	Text     string       `json:"text"`
 	Log      []string     `json:"log,omitempty"`
 	Split    *splitSpec   `json:"split,omitempty"` // split family: the scripted prefix the events came from
+	XView    *xviewSpec   `json:"xview,omitempty"` // xview family (ext_xview_test.go): the scripted prefix the events came from
+}
+
+// probeRec is one execution in flight (a file in <dir>/inflight while it
+// runs). When the explorer process dies (a panic in a goroutine of the subject
+// cannot be recovered from outside) the supervisor re-runs the executions in
+// flight one by one, each in a process of its own, and reports the one that
+// dies again as the violation.
+type probeRec struct {
+	Kind  string     `json:"kind"` // sched | split | xview
+	Scen  string     `json:"scenario"`
+	Sched *Sched     `json:"sched,omitempty"`
+	Split *splitSpec `json:"split,omitempty"`
+	XView *xviewSpec `json:"xview,omitempty"`
+}
+
+func (p probeRec) label() string {
+	switch p.Kind {
+	case "split":
+		return "split:" + p.Scen + ":" + p.Split.String()
+	case "xview":
+		return "xview:" + p.Scen + ":" + p.XView.String()
+	}
+	return p.Scen + ":" + p.Sched.Compact()
+}
+
+var (
+	inflightDir string
+	inflightSeq atomic.Int64
+)
+
+// inflightBegin records an execution as running; the returned function removes the record.
+func inflightBegin(p probeRec) func() {
+	if inflightDir == "" {
+		return func() {}
+	}
+	fl := filepath.Join(inflightDir, fmt.Sprintf("%s-%08d.json", p.Kind, inflightSeq.Add(1)))
+	if bs, err := json.Marshal(p); err == nil {
+		_ = os.WriteFile(fl, bs, 0o644)
+	}
+	return func() { _ = os.Remove(fl) }
 }
 
 type problem struct {
@@ -143,6 +185,8 @@ type runOpts struct {
 	prefix func(w *netx.World) (ev *netx.Event, more bool)
 	// after is evaluated on the state after every applied event (extra oracles).
 	after func(w *netx.World) []netx.Problem
+	// maxPrefix overrides prefixCap (0: prefixCap).
+	maxPrefix int
 }
 
 // run executes one schedule inside its own bubble.
@@ -154,6 +198,10 @@ func run(t *testing.T, sc *scen, s Sched, o runOpts) (res *result) {
 	}
 	if o.after == nil && sc.split {
 		o.after = newConformer(newConfStats()).check // replays
+	}
+	pcap := prefixCap
+	if o.maxPrefix > 0 {
+		pcap = o.maxPrefix
 	}
 	body := func(t *testing.T) {
 		t0 := realNano()
@@ -206,7 +254,7 @@ func run(t *testing.T, sc *scen, s Sched, o runOpts) (res *result) {
 			isDev := false
 			if prefixing {
 				pe, more := o.prefix(w)
-				if !more || pe == nil || step >= prefixCap {
+				if !more || pe == nil || step >= pcap {
 					prefixing = false
 					res.PrefixLen = step
 					step--
@@ -536,6 +584,12 @@ func scenarios(r *vk.Run, dir string) ([]*scen, error) {
 		sc.deep = true // quick: only the recovery-algebra family uses them
 		out = append(out, sc)
 	}
+	// The xview family (ext_xview_test.go): one scenario per primary index.
+	out = append(out, xviewScens(fam4, "", vk.Pick(r, 2, 3))...)
+	for _, sc := range xviewScens(fam4S, ":srih", vk.Pick(r, 2, 3)) {
+		sc.deep = true
+		out = append(out, sc)
+	}
 	if r.Thorough() || os.Getenv("C19_N7") != "" {
 		fam7, err := netx.NewSetup(netx.Family{Name: "n7", N: 7}, dir)
 		if err != nil {
@@ -595,16 +649,26 @@ func TestCheck(t *testing.T) {
 		os.Exit(0)
 	}
 	if one := os.Getenv("C19_ONE"); one != "" {
-		// supervisor probe: run a single schedule (JSON) and exit 0
-		var s Sched
-		if err := json.Unmarshal([]byte(one), &s); err != nil {
+		// supervisor probe: run a single execution (JSON probeRec) and exit 0
+		var pr probeRec
+		if err := json.Unmarshal([]byte(one), &pr); err != nil {
 			os.Exit(3)
 		}
-		sc := scenByName(scs, s.Scen)
+		sc := scenByName(scs, pr.Scen)
 		if sc == nil {
 			os.Exit(3)
 		}
-		res := run(t, sc, s, runOpts{})
+		var res *result
+		switch {
+		case pr.Kind == "split" && pr.Split != nil:
+			res, _, _ = runSplit(t, sc, *pr.Split, newConfStats())
+		case pr.Kind == "xview" && pr.XView != nil:
+			res, _, _ = runXView(t, sc, *pr.XView, newConfStats())
+		case pr.Sched != nil:
+			res = run(t, sc, *pr.Sched, runOpts{})
+		default:
+			os.Exit(3)
+		}
 		if os.Getenv("C19_VERBOSE") != "" {
 			for _, l := range res.Log {
 				fmt.Println("   ", l)
@@ -617,7 +681,53 @@ func TestCheck(t *testing.T) {
 			}
 			fmt.Println("    blocks:", res.Blocks, "first block bytes:", res.BlockSize, "maxlive:", res.MaxLive, "children:", len(res.Children))
 		}
-		fmt.Println("probe:", s.Compact(), res.End, res.Err)
+		fmt.Println("probe:", pr.label(), res.End, res.Err)
+		os.Exit(0)
+	}
+	if one := os.Getenv("C19_XVIEW"); one != "" {
+		// development aid: one xview prefix (JSON xviewSpec), verbose
+		var sp xviewSpec
+		if err := json.Unmarshal([]byte(one), &sp); err != nil {
+			fmt.Println(err)
+			os.Exit(3)
+		}
+		sc := scenByName(scs, xviewScenName(sp.Prim)+os.Getenv("C19_SPLIT_TAG"))
+		if n := os.Getenv("C19_XVIEW_REPEAT"); n != "" { // development aid: the same prefix many times in parallel, logs compared
+			var cnt int
+			fmt.Sscan(n, &cnt)
+			ref, _, _ := runXView(t, sc, sp, newConfStats())
+			var wg sync.WaitGroup
+			var bad atomic.Int64
+			for g := 0; g < 16; g++ {
+				wg.Add(1)
+				go func() {
+					defer wg.Done()
+					for i := 0; i < cnt; i++ {
+						x, _, _ := runXView(t, sc, sp, newConfStats())
+						if normLog(x.Log) != normLog(ref.Log) && bad.Add(1) == 1 {
+							logDiff(ref.Log, x.Log)
+							_ = os.WriteFile(os.Getenv("VERIF_OUT")+"/ref.log", []byte(strings.Join(ref.Log, "\n")), 0o644)
+							_ = os.WriteFile(os.Getenv("VERIF_OUT")+"/other.log", []byte(strings.Join(x.Log, "\n")), 0o644)
+						}
+					}
+				}()
+			}
+			wg.Wait()
+			fmt.Println("repeat:", 16*cnt, "runs,", bad.Load(), "with another log")
+			os.Exit(0)
+		}
+		res, pol, cf := runXView(t, sc, sp, newConfStats())
+		for _, l := range res.Log {
+			fmt.Println("   ", l)
+		}
+		for _, l := range res.Warns {
+			fmt.Println("    warn:", l)
+		}
+		for _, p := range res.Problems {
+			fmt.Println("    PROBLEM:", p.Oracle, p.Step, p.Text)
+		}
+		wc, mixed := recoveryViews(cf)
+		fmt.Println("    xview:", sp.String(), "end:", res.End, res.Err, "prefix:", res.PrefixLen, "events:", res.Steps, "blocks:", res.Blocks, "maxlive:", res.MaxLive, "onscript:", pol.onScript, "v:", pol.v, "drops:", pol.drops, "recovery msgs:", cf.nRec, "with commits:", wc, "mixed:", mixed)
 		os.Exit(0)
 	}
 	if one := os.Getenv("C19_SPLIT"); one != "" {
@@ -641,8 +751,8 @@ func TestCheck(t *testing.T) {
 		fmt.Println("    split:", sp.String(), "end:", res.End, res.Err, "prefix:", res.PrefixLen, "events:", res.Steps, "blocks:", res.Blocks, "maxlive:", res.MaxLive, "seen:", kindString(pol.seen), "recovery msgs:", cf.nRec, "cvs:", cf.nCV)
 		os.Exit(0)
 	}
-	inflight := filepath.Join(dir, "inflight")
-	_ = os.MkdirAll(inflight, 0o755)
+	inflightDir = filepath.Join(dir, "inflight")
+	_ = os.MkdirAll(inflightDir, 0o755)
 
 	vis := &visited{m: map[string]int{}}
 	var states, transitions, schedules, pruned vk.Counter
@@ -690,12 +800,23 @@ func TestCheck(t *testing.T) {
 		level[sc.Name] = []Sched{{Scen: sc.Name}}
 	}
 	boundaryRuns := 0
-	var splitCov, algebraCov map[string]any
+	var splitCov, algebraCov, xviewCov map[string]any
 	for b := 0; b <= 2; b++ {
 		if b == 1 && os.Getenv("C19_FAMILIES") != "off" {
 			// the recovery class (directed families; they always run, whatever level 0 found)
 			algebraCov = exploreAlgebra(t, r, scs)
-			fmt.Printf("C19: recovery-algebra family: %v cases, %.0fs elapsed\n", algebraCov["cases"], r.Elapsed())
+			fmt.Printf("C19: recovery-algebra family: %v cases (%v cross-view), %.0fs elapsed\n", algebraCov["cases"], algebraCov["cross_cases"], r.Elapsed())
+			xviewCov = exploreXView(t, r, scs, &running)
+			fmt.Printf("C19: xview family: %v of %v specs run, %v with recovery messages carrying commits of two views, %.0fs elapsed\n", xviewCov["specs_run"], xviewCov["specs"], xviewCov["runs_with_recovery_carrying_two_views"], r.Elapsed())
+			if n, ok := xviewCov["specs_run"].(int); ok {
+				schedules.Add(n)
+			}
+			if n, ok := xviewCov["events"].(int); ok {
+				transitions.Add(n)
+			}
+			if os.Getenv("C19_FAMILIES") == "xview" { // development aid
+				break
+			}
 			splitCov = exploreSplits(t, r, scs, &running)
 			fmt.Printf("C19: split family: %v of %v specs run (%v identical to a smaller mask), %.0fs elapsed\n", splitCov["specs_run"], splitCov["specs_enumerated"], splitCov["specs_skipped_as_identical"], r.Elapsed())
 			if n, ok := splitCov["specs_run"].(int); ok {
@@ -732,14 +853,11 @@ func TestCheck(t *testing.T) {
 		done := r.Parallel(len(jobs), func(i int) {
 			j := jobs[i]
 			key := fmt.Sprintf("%s|%s", j.sc.Name, j.s.Compact())
-			fl := filepath.Join(inflight, fmt.Sprintf("%d-%d.json", b, i))
-			if bs, err := json.Marshal(j.s); err == nil {
-				_ = os.WriteFile(fl, bs, 0o644)
-			}
+			fdone := inflightBegin(probeRec{Kind: "sched", Scen: j.sc.Name, Sched: &j.s})
 			running.Store(key, time.Now())
 			res := run(t, j.sc, j.s, runOpts{gen: b < j.sc.maxBound, vis: vis})
 			running.Delete(key)
-			_ = os.Remove(fl)
+			fdone()
 			if res.End == "error" {
 				fmt.Println("CHECK-ERROR: schedule", key, "could not be executed:", res.Err)
 				os.Exit(3)
@@ -825,7 +943,7 @@ func TestCheck(t *testing.T) {
 		}
 		a := run(t, p.sc, *p.s, runOpts{})
 		b := run(t, p.sc, *p.s, runOpts{})
-		if strings.Join(a.Log, "\n") != strings.Join(b.Log, "\n") || fmt.Sprint(a.Blocks) != fmt.Sprint(b.Blocks) {
+		if normLog(a.Log) != normLog(b.Log) || fmt.Sprint(a.Blocks) != fmt.Sprint(b.Blocks) {
 			fmt.Println("CHECK-ERROR: nondeterministic replay of", p.sc.Name, p.s.Compact())
 			for i := range a.Log {
 				if i >= len(b.Log) || a.Log[i] != b.Log[i] {
@@ -871,28 +989,34 @@ func TestCheck(t *testing.T) {
 		n7 = fmt.Sprintf("built with 7 generated standby validators; completed deviation bound %d over %d height(s)", completed["n7-base"], sc.Heights)
 	}
 	r.Finish(map[string]any{
-		"states":                           int(states.Get()),
-		"transitions":                      int(transitions.Get()),
-		"traces_validated_against_impl":    int(schedules.Get()),
-		"schedules":                        int(schedules.Get()),
-		"schedules_pruned_by_state_hash":   int(pruned.Get()),
-		"completed_bound_per_scenario":     completed,
-		"completed_bound_all":              minCompleted,
-		"schedules_per_bound":              levelSizes,
-		"distinct_final_outcomes":          stateDist.Len(),
-		"scenarios":                        scNames,
-		"boundary_scenarios":               boundaryNames,
-		"boundary_scenarios_run":           boundaryRuns,
-		"boundary_scenarios_completed":     boundaryDone,
-		"boundary_limits":                  map[string]int{"MaxBlockSystemFee": netx.LimMaxBlockSystemFee, "MaxBlockSize": netx.LimMaxBlockSize, "MaxTransactionsPerBlock": netx.LimMaxTxPerBlock},
-		"boundary_rule":                    "families n4lim / n4limS (StateRootInHeader): every validator pools the same content; contents: total system fee limit-1 / = / +1, single tx = limit, tx count limit-1 / = / +1, packed block size limit-1 / = / +1; x every primary (0..3 pad blocks); default schedule only; oracle: no ChangeView at all, block at view 0 holding exactly the limit-respecting prefix, serialised block within the limits",
-		"n7_status":                        n7,
-		"family_split":                     splitCov,
-		"family_recovery_algebra":          algebraCov,
-		"liveness_step_bound":              map[string]int{"N=4": liveBound4, "N=7": liveBound7},
-		"liveness_max_steps_observed":      int(maxLive.Load()),
-		"worker_seconds_setup_steps_close": []float64{float64(tSetup.Load()) / 1e9, float64(tSteps.Load()) / 1e9, float64(tClose.Load()) / 1e9},
-		"rule":                             "schedule = synchronous default schedule (due timers, FIFO deliveries, block hand-over to laggards, earliest timer) with <= bound deviations (drop, reorder within a receiver, duplicate, early/other timer, unrequested tx relay, early block hand-over, silence <= f, un-silence); deviations only on events of the default event's owner (receiver independence); state = digest of per-node ledger/mempool/dBFT context/timer + ordered pending list; a schedule stops where it reaches a state already reached with no more deviations",
+		"states":                                      int(states.Get()),
+		"transitions":                                 int(transitions.Get()),
+		"traces_validated_against_impl":               int(schedules.Get()),
+		"schedules":                                   int(schedules.Get()),
+		"schedules_pruned_by_state_hash":              int(pruned.Get()),
+		"completed_bound_per_scenario":                completed,
+		"completed_bound_all":                         minCompleted,
+		"schedules_per_bound":                         levelSizes,
+		"distinct_final_outcomes":                     stateDist.Len(),
+		"scenarios":                                   scNames,
+		"boundary_scenarios":                          boundaryNames,
+		"boundary_scenarios_run":                      boundaryRuns,
+		"boundary_scenarios_completed":                boundaryDone,
+		"boundary_limits":                             map[string]int{"MaxBlockSystemFee": netx.LimMaxBlockSystemFee, "MaxBlockSize": netx.LimMaxBlockSize, "MaxTransactionsPerBlock": netx.LimMaxTxPerBlock},
+		"boundary_rule":                               "families n4lim / n4limS (StateRootInHeader): every validator pools the same content; contents: total system fee limit-1 / = / +1, single tx = limit, tx count limit-1 / = / +1, packed block size limit-1 / = / +1; x every primary (0..3 pad blocks); default schedule only; oracle: no ChangeView at all, block at view 0 holding exactly the limit-respecting prefix, serialised block within the limits",
+		"n7_status":                                   n7,
+		"family_split":                                splitCov,
+		"family_xview":                                xviewCov,
+		"xview_specs_run":                             xviewCov["specs_run"],
+		"xview_distinct_outcomes":                     xviewCov["distinct_outcomes"],
+		"xview_runs_with_recovery_carrying_two_views": xviewCov["runs_with_recovery_carrying_two_views"],
+		"algebra_cross_view_cases":                    algebraCov["cross_cases"],
+		"algebra_distinct_outcomes":                   algebraCov["distinct_outcomes"],
+		"family_recovery_algebra":                     algebraCov,
+		"liveness_step_bound":                         map[string]int{"N=4": liveBound4, "N=7": liveBound7},
+		"liveness_max_steps_observed":                 int(maxLive.Load()),
+		"worker_seconds_setup_steps_close":            []float64{float64(tSetup.Load()) / 1e9, float64(tSteps.Load()) / 1e9, float64(tClose.Load()) / 1e9},
+		"rule":                                        "schedule = synchronous default schedule (due timers, FIFO deliveries, block hand-over to laggards, earliest timer) with <= bound deviations (drop, reorder within a receiver, duplicate, early/other timer, unrequested tx relay, early block hand-over, silence <= f, un-silence); deviations only on events of the default event's owner (receiver independence); state = digest of per-node ledger/mempool/dBFT context/timer + ordered pending list; a schedule stops where it reaches a state already reached with no more deviations",
 	}, []string{
 		"network-layer filtering (extensible pool signature/height checks, deduplication) is not in the loop: payloads reach OnPayload directly after a serialise/parse round trip; all senders are honest (silent = crash/partition faults, no Byzantine payloads)",
 		"the state digest abstracts from timestamps and signatures; pruning on it may merge states that differ only there",
@@ -900,6 +1024,23 @@ func TestCheck(t *testing.T) {
 		"liveness is demanded only of states without silenced nodes and of continuations without loss; carry oracle: view 0 block = the primary's verified mempool when it proposed, later views a subset (the service re-proposes the previous proposal by design)",
 		"one shared bubble clock with fixed per-node skews; a timer event advances the clock to that timer's deadline",
 	})
+}
+
+// normLog is the event log as compared by the determinism self-checks. The
+// line "AddBlock -> ..." of a block hand-over is written by the driver after
+// AddBlock returned, while the receiving service may already be reacting to
+// the block notification (its "out ..." lines): the relative order of those
+// lines is not part of the execution.
+func normLog(l []string) string {
+	var sb strings.Builder
+	for _, x := range l {
+		if strings.HasPrefix(x, "  AddBlock -> ") {
+			continue
+		}
+		sb.WriteString(x)
+		sb.WriteByte('\n')
+	}
+	return sb.String()
 }
 
 func tail(s []string, n int) []string {
@@ -944,7 +1085,15 @@ func replay(t *testing.T, r *vk.Run, scs []*scen) {
 	}
 	var first []string
 	for i := 0; i < 5; i++ {
-		res := run(t, sc, Sched{Scen: c.Scenario, Devs: c.Devs}, runOpts{explicit: c.Events})
+		var res *result
+		switch {
+		case len(c.Events) == 0 && c.XView != nil: // recorded by the supervisor: the worker running this scripted prefix died
+			res, _, _ = runXView(t, sc, *c.XView, newConfStats())
+		case len(c.Events) == 0 && c.Split != nil:
+			res, _, _ = runSplit(t, sc, *c.Split, newConfStats())
+		default:
+			res = run(t, sc, Sched{Scen: c.Scenario, Devs: c.Devs}, runOpts{explicit: c.Events})
+		}
 		if res.End == "error" {
 			fmt.Printf("replay %d: the recorded event list does not fit: %s\n", i, res.Err)
 			os.Exit(3)
@@ -954,7 +1103,7 @@ func replay(t *testing.T, r *vk.Run, scs []*scen) {
 			for _, l := range res.Log {
 				fmt.Println("   ", l)
 			}
-		} else if strings.Join(first, "\n") != strings.Join(res.Log, "\n") {
+		} else if normLog(first) != normLog(res.Log) {
 			fmt.Println("CHECK-ERROR: replay is not deterministic")
 			os.Exit(3)
 		}
@@ -1013,8 +1162,8 @@ func supervise() {
 		if err != nil {
 			continue
 		}
-		var s Sched
-		if json.Unmarshal(bs, &s) != nil {
+		var pr probeRec
+		if json.Unmarshal(bs, &pr) != nil || (pr.Sched == nil && pr.Split == nil && pr.XView == nil) {
 			continue
 		}
 		var out bytes.Buffer
@@ -1044,10 +1193,18 @@ func supervise() {
 				txt = txt[:3000]
 			}
 			n := 4
-			if strings.HasPrefix(s.Scen, "n7") {
+			if strings.HasPrefix(pr.Scen, "n7") {
 				n = 7
 			}
-			r.Violation(fmt.Sprintf("%s:%d:%d:%s:%s", what, n, len(s.Devs), s.Scen, s.Compact()), caseRec{Oracle: what, Scenario: s.Scen, N: n, Bound: len(s.Devs), Schedule: s.Compact(), Devs: s.Devs, Text: txt})
+			switch pr.Kind {
+			case "split":
+				r.Violation(fmt.Sprintf("%s:split:%s:%s", what, pr.Scen, pr.Split.String()), caseRec{Oracle: what, Scenario: pr.Scen, N: n, Schedule: pr.Split.String(), Text: txt, Split: pr.Split})
+			case "xview":
+				r.Violation(fmt.Sprintf("%s:xview:%s:%s", what, pr.Scen, pr.XView.String()), caseRec{Oracle: what, Scenario: pr.Scen, N: n, Schedule: pr.XView.String(), Text: txt, XView: pr.XView})
+			default:
+				s := *pr.Sched
+				r.Violation(fmt.Sprintf("%s:%d:%d:%s:%s", what, n, len(s.Devs), s.Scen, s.Compact()), caseRec{Oracle: what, Scenario: s.Scen, N: n, Bound: len(s.Devs), Schedule: s.Compact(), Devs: s.Devs, Text: txt})
+			}
 		}
 	}
 	if !found {
